@@ -40,6 +40,13 @@ def mk(cls, **opts):
     return pre
 
 
+def _psf_taps(kind, size, param, beta=1):
+    """documented named point-spread functions: the stated profile sampled at the integer offsets -floor(size/2) .. ceil(size/2)-1 (exactly `size` taps), normalised to sum one"""
+    k = np.arange(-(size // 2), size - size // 2, dtype=float)
+    f = np.exp(-0.5 * k ** 2 / param ** 2) if kind == 'gauss' else (1 + k ** 2 / param ** 2) ** (-beta)
+    return f / f.sum()
+
+
 def _ref1d(dim, P, BC):
     from scipy.ndimage import convolve1d
     mode = {'zero': 'constant', 'periodic': 'wrap', 'mirror': 'mirror', 'reflect': 'reflect', 'nearest': 'nearest'}[BC.lower()]
@@ -81,7 +88,7 @@ def deconv1d(c, dim, BC, PSF, noise_kind, legacy=False):
     tp, draws = c.pre
     if c.sym: shims.symbolize_operators(tp.model)
     x = c.vec('x', dim)
-    P = PSF if isinstance(PSF, np.ndarray) else cuqi.testproblem._testproblem._GaussPSF_1D(PSF[1], PSF[2])[0] if isinstance(PSF, tuple) else None
+    P = PSF if isinstance(PSF, np.ndarray) else _psf_taps(*PSF) if isinstance(PSF, tuple) else None      # named PSFs: taps from the documented formula, not from the library's generator
     if P is not None and not legacy:
         c.eq('forward_model_is_documented_convolution', tp.model.forward(x), _ref1d(dim, P, BC) @ x, tol=1e-9, approx=True)
     _consistency(c, tp, draws, noise_kind, 0.05, x)
@@ -175,13 +182,15 @@ def jobs(tier):
     asym3 = np.array([0.5, 0.3, 0.2]); asym4 = np.array([0.4, 0.3, 0.2, 0.1])
     F1 = [f'{T}:Deconvolution1D.__init__', f'{T}:_getConvolutionOperator', 'cuqi.problem._problem:BayesianProblem.get_components']
     for BC in ('periodic', 'zero', 'Mirror', 'reflect', 'Nearest'):
-        for (nm, PSF) in (('asym3', asym3), ('asym4', asym4)) + (() if q else (('gauss5', 'gauss'),)):
+        named = (('gauss5', ('gauss', 5, 1.0)), ('gauss4', ('gauss', 4, 1.5)), ('moffat5', ('moffat', 5, 1.5))) + (() if q else (('moffat6', ('moffat', 6, 2.0)), ('gauss3', ('gauss', 3, 3.0))))
+        for (nm, PSF) in (('asym3', asym3), ('asym4', asym4)) + named:
             for nk in ('gaussian', 'scaledgaussian'):
                 if q and nk == 'scaledgaussian' and nm != 'asym3': continue
+                if q and isinstance(PSF, tuple) and BC not in ('periodic', 'zero'): continue
                 opts = dict(dim=6, PSF=PSF, BC=BC, noise_type=nk, noise_std=0.05)
-                if isinstance(PSF, str): opts.update(PSF_size=5, PSF_param=1.0)
-                J.append(Job(f'Deconvolution1D:BC={BC}:PSF={nm}:noise={nk}', lambda c, BC=BC, PSF=(PSF if not isinstance(PSF, str) else ('gauss', 5, 1.0)), nk=nk: deconv1d(c, 6, BC, PSF, nk),
-                             'Pbox', F1, pre=mk('Deconvolution1D', **opts), rtol=1e-7))
+                if isinstance(PSF, tuple): opts.update(PSF=PSF[0], PSF_size=PSF[1], PSF_param=PSF[2])
+                J.append(Job(f'Deconvolution1D:BC={BC}:PSF={nm}:noise={nk}', lambda c, BC=BC, PSF=PSF, nk=nk: deconv1d(c, 6, BC, PSF, nk),
+                             'Pbox', F1 + ([f'{T}:_createPSF_1D'] if isinstance(PSF, tuple) else []), pre=mk('Deconvolution1D', **opts), rtol=1e-7))
     J.append(Job('Deconvolution1D:legacy_circulant', lambda c: deconv1d(c, 6, 'periodic', None, 'gaussian', True), 'Pbox', F1 + [f'{T}:_getCirculantMatrix'],
                  pre=mk('Deconvolution1D', dim=6, use_legacy=True, noise_std=0.05), rtol=1e-7))
     F2 = [f'{T}:Deconvolution2D.__init__', f'{T}:_proj_forward_2D']
